@@ -36,19 +36,32 @@ InOf(e) ==
               THEN [k |-> "upd", p |-> PointOf(e.items[1].ty, e.items[1].ix)]
               ELSE [k |-> "?"]
       [] e.k = "rx" ->
-            IF e.src # "M" \/ e.dst # "U" \/ ~e.wf \/ ~e.fir \/ ~e.fin \/ e.con THEN [k |-> "?"]
+            IF e.dst \notin {"U", "BC_OPT", "BC_MAN", "BC_NR"} \/ ~e.fir \/ ~e.fin \/ e.con THEN [k |-> "?"]
             ELSE LET rep == e.bid = lastReq.bid /\ e.seq = lastReq.seq
-                 IN CASE e.fc = 0 -> [k |-> "conf", uns |-> e.uns, seq |-> e.seq]
+                     adr == [src |-> e.src, dst |-> e.dst]
+                     isCtl == e.fc \in {3, 4, 5, 6} /\ Len(e.hdrs) = 1 /\ e.hdrs[1].g = 12 /\ e.hdrs[1].q = 23
+                                /\ Len(e.robjs) = 1 /\ e.robjs[1].ix \in {1, 2}
+                     req(f, cl, ob, bad) == [k |-> "req", f |-> f, seq |-> e.seq, cl |-> cl, rep |-> rep,
+                                             ob |-> ob, bad |-> bad] @@ adr
+                 IN CASE e.fc = 0 /\ e.src = "M" /\ e.dst = "U" -> [k |-> "conf", uns |-> e.uns, seq |-> e.seq]
+                      [] e.fc = 0 -> [k |-> "?"]
                       [] e.uns -> [k |-> "?"]
+                      [] e.cls = "unkfn" -> req("unkfn", {}, "", "unkfn")
+                      [] e.cls = "badobj" /\ e.fc = 1 ->
+                           [k |-> "read", seq |-> e.seq, hs |-> <<>>, rep |-> rep, ob |-> "", bad |-> "badobj"] @@ adr
+                      [] ~e.wf -> [k |-> "?"]
                       [] e.fc = 1 ->
                            LET hs == [i \in 1..Len(e.hdrs) |-> HdrTok(e.hdrs[i])]
                            IN IF \E i \in 1..Len(hs) : hs[i].n = "?" THEN [k |-> "?"]
-                              ELSE [k |-> "read", seq |-> e.seq, hs |-> hs, rep |-> rep]
-                      [] e.fc = 23 /\ e.hdrs = <<>> ->
-                           [k |-> "req", f |-> "delay", seq |-> e.seq, cl |-> {}, rep |-> rep]
+                              ELSE [k |-> "read", seq |-> e.seq, hs |-> hs, rep |-> rep, ob |-> "", bad |-> ""] @@ adr
+                      [] e.fc = 23 /\ e.hdrs = <<>> -> req("delay", {}, "", "")
                       [] e.fc \in {20, 21} /\ ClsOf(e.hdrs) # {} /\ Cardinality(ClsOf(e.hdrs)) = Len(e.hdrs) ->
-                           [k |-> "req", f |-> IF e.fc = 20 THEN "enable" ELSE "disable", seq |-> e.seq,
-                            cl |-> ClsOf(e.hdrs), rep |-> rep]
+                           req(IF e.fc = 20 THEN "enable" ELSE "disable", ClsOf(e.hdrs), "", "")
+                      [] isCtl ->
+                           req(CASE e.fc = 3 -> "select" [] e.fc = 4 -> "operate" [] e.fc = 5 -> "dop"
+                                 [] OTHER -> "dopnr", {}, IF e.robjs[1].ix = 1 THEN "a" ELSE "b", "")
+                      [] e.fc = 2 /\ Len(e.robjs) = 1 /\ e.robjs[1].g = 80 /\ e.robjs[1].ix = 7
+                           /\ e.robjs[1].val = "0" -> req("write_rst", {}, "", "")
                       [] OTHER -> [k |-> "?"]
       [] OTHER -> [k |-> "?"]
 
